@@ -10,7 +10,7 @@ from vfcore import REPO
 
 META = {
     "engine": "fuzz", "level": "exploration", "design_ref": "DESIGN.md §4.3 C35",
-    "technique": "out-of-process mutation fuzzing (byte, token, keyword-dictionary, splice, nesting, hostile numbers) of the ASan+UBSan+assert builds of mfront and mfront-query on the repository's .mfront corpus, with an exit classifier (signal / sanitizer report / assertion / hang vs. the tools' own error reporting)",
+    "technique": "out-of-process systematic keyword sweep + mutation fuzzing (byte, token, keyword-dictionary, splice, nesting, hostile numbers, name aliasing) of the ASan+UBSan+assert builds of mfront and mfront-query on the repository's .mfront corpus, with an exit classifier (signal / sanitizer report / assertion / hang vs. the tools' own error reporting)",
     "text": "A systematic sweep places every keyword of every DSL (read from the binary) alone after the header of a minimal input, right after the header and at the end of a real input of that DSL, followed by varied argument shapes; then thousands of mutated inputs per run (byte, token, keyword, splice, nesting, hostile numbers, name aliasing) are fed to the sanitizer-instrumented real binaries (every interface registered in this build, a rotating set of mfront-query queries). Any death by signal, AddressSanitizer/UBSan report, failed assertion or confirmed hang (watchdog fired twice on the same input) is a violation carrying the input; a non-zero exit with a message — including mfront-query's documented 'terminate called after throwing …what():' path under libstdc++ — is an error report. No coverage feedback: reach comes from corpus breadth and dictionary-aware mutation; held on the inputs executed only.",
     "note": "Trusted: the classifier in vfcore.Ctx.classify_crash; ASan reports 'allocation-size-too-big'/'out-of-memory' are resource exhaustion of the instrumented build (a plain build throws std::bad_alloc, an error report) and are counted, not judged. Solver-specific interfaces are compiled out of this configuration and are not reachable.",
 }
